@@ -94,6 +94,7 @@ type Result struct {
 	Nontrivial  int               `json:"distinct_nontrivial"`
 	Rule        string            `json:"rule"`
 	Floor       int64             `json:"floor"`
+	Required    map[string]int64  `json:"required_counters,omitempty"`
 	Exhaustive  []string          `json:"exhaustive_subspaces,omitempty"`
 	Violations  []*Violation      `json:"violations"`
 	Counters    map[string]int64  `json:"counters"`
@@ -173,6 +174,17 @@ func (r *Reporter) DistinctBytes(parts ...[]byte) {
 func (r *Reporter) Count(name string, n int64) {
 	r.mu.Lock()
 	r.res.Counters[name] += n
+	r.mu.Unlock()
+}
+
+// Require declares that a run in which the named counter stays below min observed too little of the path the counter
+// stands for: the driver then reports the run as inconclusive ("hook never reached"), never as held.
+func (r *Reporter) Require(name string, min int64) {
+	r.mu.Lock()
+	if r.res.Required == nil {
+		r.res.Required = map[string]int64{}
+	}
+	r.res.Required[name] = min
 	r.mu.Unlock()
 }
 
